@@ -21,7 +21,7 @@ PID = "C23"
 LEVEL = "proof"
 LEAN = ["SaVerif.Props.C23"]
 META = {
-    "text": "Lean theorems over ALL operation sequences: (refines_nested_spec) every well-nested, fault-free history of begin/begin_nested/execute/commit/rollback and handle commit/rollback/close on the transcribed Connection state machine refines a stack-of-scopes specification step by step (same result class, same rows visible to other connections, same rows seen, same in_transaction/in_nested_transaction); (ended_commit_raises_no_effect, ended_nested_rollback_no_effect) operations on ended transactions raise / do nothing and leave the state untouched; (close_rolls_back_all) close ends everything and leaves committed data unchanged; context-manager exit = commit / rollback + restoration of the enclosing context; well-formedness invariants of the handle graph for every history including misuse. The model is tied to engine/base.py + engine/util.py by a per-step differential run on a SQLite file DB with an observer connection (random structured histories with misuse, context managers).",
+    "text": "Lean theorems: (refines_nested_spec, by induction over ALL accepted operation sequences with a simulation relation) every well-nested, fault-free history of begin/begin_nested/INSERT/DELETE/SELECT/commit/rollback and handle commit/rollback/close - including operations on ended handles, double commit, begin inside a transaction, failing statements - on the transcribed Connection state machine refines a stack-of-scopes specification step by step: same result class, same rows visible to other connections, same rows seen, same in_transaction()/in_nested_transaction(); (ended_commit_raises_no_effect, ended_nested_rollback_no_effect: for EVERY state) operations on ended transactions raise / do nothing and leave the state untouched; (close_rolls_back_all) close ends everything, leaves committed data unchanged and returns a clean DBAPI connection; (ctx_exit_semantics, ctx_exit_restores, ctx_enter_exit_roundtrip, ctx_blocks_use_after_end: for EVERY state) __exit__ is commit / rollback / nothing exactly as specified, always restores the enclosing context manager, and a with-block whose transaction ended refuses begin/begin_nested; (wf_all, cancel_reaches_end: for EVERY history incl. misuse and faults) the transaction pointer names a root object, _previous_nested links point to older objects, cancellation reaches the end of the savepoint chain. The model is tied to engine/base.py + engine/util.py by a per-step differential run on a SQLite file DB with an observer connection (scripted shapes, structured histories with injected misuse, random soups, context managers) and a reference-model oracle.",
     "note": "refines_nested_spec is proved for well-nested use; for out-of-order savepoint rollback/release the model (and the code) keep inner NestedTransaction objects active (F8): out_of_order_rollback_counterexample + known finding out-of-order-savepoint-rollback/-release; a stale RootTransaction.rollback()/close() cancels the savepoints of the current transaction (stale_root_rollback_counterexample, known finding stale-root-rollback-cancels-savepoints). Modelled-not-verified: the DBAPI driver and SQLite (abstract DB with SAVEPOINT stack; sqlite3 in PEP-249 autocommit=False mode behind a thin proxy), warnings machinery, Python object identity of handles. PostgreSQL/MariaDB are not executed; two-phase transactions are not modelled.",
     "technique": "Lean 4 refinement proof (simulation relation, induction over op sequences) about a hand-transcribed model + per-step differential correspondence against the real Connection on SQLite",
     "design_ref": "DESIGN.md §3 C23",
